@@ -426,7 +426,17 @@ fn run_case(d: &mut Driver, r: &mut Report, c: &CaseCfg, g: &mut SplitMix, i: u6
             r.violate(json!({"case": case, "real": clip(&real_line), "old": clip(&show_pop(&st.old)), "what": why}));
         }
     }
-    drop(gen);
+    // `into_population` hands out exactly the population the last step left; `Population::is_empty` agrees with the size
+    if let Some(Gen::Real(g)) = gen {
+        let final_pop = g.into_population();
+        if final_pop != current {
+            r.violate(json!({"case": format!("generation {mode} n={} #{i}: into_population", c.n), "real": clip(&show_pop(&final_pop)), "spec": clip(&show_pop(&current)),
+                "what": ["into_population does not return the population the last step left"]}));
+        }
+        if ec_core::population::Population::is_empty(&final_pop) != (ec_core::population::Population::size(&final_pop) == 0) || ec_core::population::Population::size(&final_pop) != c.n {
+            r.violate(json!({"case": format!("generation {mode} n={} #{i}: size", c.n), "real": ec_core::population::Population::size(&final_pop), "what": ["Population::size / is_empty do not describe the population"]}));
+        }
+    }
 }
 
 fn clip(s: &str) -> String { if s.len() > 400 { format!("{}…({} chars)", &s[..400], s.len()) } else { s.to_string() } }
